@@ -291,7 +291,7 @@ pub fn instr_return<T>(vm: &mut Vm<T>, instr_ptr: &mut usize) -> ExecutionResult
                     .as_ptr()
                     .add(call_frame.stack_offset as usize)
             };
-            _close_upvalues(vm, stack_start_location)?;
+            close_upvalues_from(vm, stack_start_location)?;
 
             vm.runtime_data
                 .value_stack
@@ -550,7 +550,7 @@ pub fn write_upvalue<T>(vm: &mut Vm<T>, bytecode: &[u8], instr_ptr: &mut usize) 
     }
 }
 
-fn _close_upvalues<T>(vm: &mut Vm<T>, top: *const Value) -> ExecutionResult {
+pub(crate) fn close_upvalues_from<T>(vm: &mut Vm<T>, top: *const Value) -> ExecutionResult {
     if top.is_null() {
         return Err(ExecutionErrorPayload::invalid_argument(
             "Can't close upvalues on an empty stack",
@@ -581,7 +581,7 @@ fn _close_upvalues<T>(vm: &mut Vm<T>, top: *const Value) -> ExecutionResult {
 
 pub fn close_upvalues<T>(vm: &mut Vm<T>) -> ExecutionResult {
     let top = vm.runtime_data.value_stack.top_location();
-    _close_upvalues(vm, top)?;
+    close_upvalues_from(vm, top)?;
     // the captured local leaves its scope: release its slot, like `Pop` does for the other locals,
     // so that the next captured local of the same scope is on top when it is closed
     vm.runtime_data.value_stack.pop();
